@@ -6,6 +6,7 @@ ROOT="$(cd "$(dirname "$0")" && pwd)"
 cd "${VERIF_REPO:-/repo}" || exit 2
 unset RUSTFLAGS
 export CARGO_NET_OFFLINE=true
+rm -f "${VERIF_REPO:-/repo}/target/nextest/pb/junit.xml"   # never read a stale report
 cargo nextest run --workspace --no-fail-fast --tool-config-file "pb:$ROOT/nextest.toml" --profile pb --test-threads 8 --offline >/tmp/verif-baseline.log 2>&1
 python3 - "$@" <<'PY'
 import json, sys, xml.etree.ElementTree as ET
